@@ -16,7 +16,7 @@ from checks import _transforms as H
 
 ID = "C02"
 RULE = ("same configurations as C01 (class x constructor options x parameter/constant lattice with all "
-        "bounds, defaults, branch values; <= 2 deviations quick, full product thorough) x the same x-lattice. "
+        "bounds, defaults, branch values; <= 3 deviations quick, full product thorough) x the same x-lattice. "
         "At every in-scope point (documented domain, stated conditioning region, textbook float64 reference "
         "round-trips to 1e-8) the real jacobian must be finite and > 0; on consecutive in-scope points of the "
         "sorted lattice the real forward must not decrease and must increase where the reference images "
@@ -44,7 +44,7 @@ PER_UNIT = {"quick": 6, "thorough": 12}
 
 def bound_text(tier, seed):
     if tier == "quick":
-        return ("all 13 classes; configurations with <= 2 coordinates off the default call; 53-point general "
+        return ("all 13 classes; configurations with <= 3 coordinates off the default call; 53-point general "
                 "x-lattice + edge/branch points; steps 2^-7 and 2^-10 of the local scale; Softmax dimension 1-3; "
                 "jacobian through 4 parameter routes; seed %d rotates one mantissa, one lam, one Softmax value" % seed)
     return ("all 13 classes; full product of options x extended parameter lattices; 365-point general x-lattice "
@@ -242,6 +242,20 @@ def check_config(ctx, T, cfg, tier, seed):
     if e is not None:
         k = "%s:forward:raised:%s" % (br, type(e).__name__)
         ctx.violation(k, dict(case, key=k), "forward(x) raised %r on in-scope points" % (e,))
+    if e is None and y is not None:
+        # the forward that is judged for monotonicity below must be the same function on every object:
+        # other parameter routes and an object that was used before its parameters were set by name
+        for r, t in objs.items():
+            if r == r0:
+                continue
+            y2, e2 = call(t.forward, xin.copy())
+            ctx.case(True, n=len(xin))
+            if e2 is not None or y2.tobytes() != y.tobytes():
+                k = "%s:route=%s:forward-differs" % (cls, r)
+                ctx.violation(k, dict(case, key=k), "forward through route %s differs from route %s (%s): monotonicity/derivative are "
+                              "judged on a function that depends on the object's history" % (r, r0, repr(e2) if e2 is not None else "values"))
+    if e is not None:
+        pass
     elif y.shape == xin.shape and np.isnan(y).any():
         first_bad(ctx, br + ":forward:nan", case, np.isnan(y), xin, labs,
                   lambda i: "forward(%r) = nan at an in-scope point" % float(xin[i]))
